@@ -399,6 +399,7 @@ func (a *Analyzer) buildElementTree(result *AnalysisResult) []LayoutElement {
 	// Add headings
 	if result.Headings != nil {
 		for i, heading := range result.Headings.Headings {
+			heading := heading // the element keeps a pointer to it: one copy per element, not the shared loop variable
 			elem := LayoutElement{
 				Type:    model.ElementTypeHeading,
 				BBox:    heading.BBox,
@@ -423,6 +424,7 @@ func (a *Analyzer) buildElementTree(result *AnalysisResult) []LayoutElement {
 	// Add lists
 	if result.Lists != nil {
 		for i, list := range result.Lists.Lists {
+			list := list // the element keeps a pointer to it: one copy per element, not the shared loop variable
 			elem := LayoutElement{
 				Type:  model.ElementTypeList,
 				BBox:  list.BBox,
@@ -446,6 +448,7 @@ func (a *Analyzer) buildElementTree(result *AnalysisResult) []LayoutElement {
 	// Add remaining paragraphs
 	if result.Paragraphs != nil {
 		for i, para := range result.Paragraphs.Paragraphs {
+			para := para // the element keeps a pointer to it: one copy per element, not the shared loop variable
 			if consumedParaIndices[i] {
 				continue
 			}
@@ -680,6 +683,7 @@ func (a *Analyzer) QuickAnalyze(fragments []text.TextFragment, pageWidth, pageHe
 
 		// Convert paragraphs to elements
 		for i, para := range result.Paragraphs.Paragraphs {
+			para := para // the element keeps a pointer to it: one copy per element, not the shared loop variable
 			elem := LayoutElement{
 				Type:      model.ElementTypeParagraph,
 				BBox:      para.BBox,
